@@ -3,6 +3,7 @@ package rules
 import (
 	"fmt"
 	"go/ast"
+	"go/types"
 	"strings"
 
 	"mlverif/core"
@@ -41,7 +42,7 @@ func init() {
 		n := 0
 		for _, s := range c.G.SitesOfKind("EVT:") {
 			n++
-			c.Check("C07/event-site/"+s.Fn.Name+"/"+s.Kind, rule, s.Pos, handlers[s.Fn] && p.EnclosingFunc(s.Node) == ast.Node(s.Fn.Decl), "event notification outside the claim handlers' locked region: "+s.Fn.Name)
+			c.Check("C07/event-site/"+s.Fn.Name+"/"+s.Kind, rule, s.Pos, c.onlyWithin(s.Fn, handlers, 0) && p.EnclosingFunc(s.Node) == ast.Node(s.Fn.Decl), "event notification outside the claim handlers' locked region: "+s.Fn.Name)
 		}
 		c.Floor("EventDelegate call sites", n, 3)
 		for _, k := range []string{"alive", "suspect", "dead"} {
@@ -167,45 +168,97 @@ func checkMembersFilter(c *Ctx) {
 	for _, name := range []string{"Memberlist.Members", "Memberlist.NumMembers"} {
 		fn := c.MustFunc(name)
 		ok := false
-		why := "no range over the node list with a !DeadOrLeft filter found"
-		ast.Inspect(fn.Decl.Body, func(n ast.Node) bool {
+		why := "no loop over the node list that includes exactly the records that are neither dead nor left"
+		inspectFn(fn, func(n ast.Node) bool {
 			rs, isR := n.(*ast.RangeStmt)
-			if !isR || p.FieldOwner(rs.X) != "Memberlist.nodes" || len(rs.Body.List) != 1 {
+			if !isR || p.FieldOwner(rs.X) != "Memberlist.nodes" {
 				return true
 			}
-			ifs, isIf := rs.Body.List[0].(*ast.IfStmt)
-			if !isIf || ifs.Else != nil {
-				return true
-			}
-			// condition must be equivalent to !(State==Dead||State==Left) of the range value
-			x := gea.New(p, name+"$filter", fn.Decl.Type, &ast.BlockStmt{List: []ast.Stmt{}}, gea.Base{})
+			// one iteration of the loop body, explored for an element in each of the four states:
+			// the element is included (appended to the result / counted) iff it is neither dead nor left
+			spec := &memberIterSpec{}
+			x := gea.New(p, name+"$iteration", fn.Decl.Type, rs.Body, spec)
+			x.InlineCallee = c.inlinePolicy
 			x.DeclareVar("S", stateDom)
-			if id, isId := rs.Value.(*ast.Ident); isId {
-				x.SetAlias(p.Info.Defs[id], "n")
+			if id, isId := rs.Value.(*ast.Ident); isId && id.Name != "_" {
+				spec.elem = p.Info.Defs[id]
 			}
-			st := (&gea.State{Cube: map[string]string{}, Store: map[string]gea.Term{}, Seen: map[string]int{}}).Bind("n.State", gea.Ref("S"))
-			good := true
-			cnt := 0
-			for _, o := range x.EvalBool(st, ifs.Cond, nil) {
-				s, has := o.St.Cube["S"]
-				if !has {
+			if id, isId := rs.Key.(*ast.Ident); isId && id.Name != "_" {
+				spec.key = p.Info.Defs[id]
+			}
+			x.Run()
+			if x.Trunc {
+				fail("exploration of %s exceeded the state limit", name+"$iteration")
+			}
+			good := len(x.Exits) > 0
+			for _, ex := range x.Exits {
+				ex := ex
+				okx, wit := x.ForAll(ex.Cube, func(g getf) bool {
+					inc := ex.Seen["INCLUDE"]
+					if inc > 1 {
+						return false
+					}
+					return (inc == 1) == !deadOrLeft(g("S"))
+				})
+				if !okx {
 					good = false
-					continue
-				}
-				cnt++
-				if o.V != !deadOrLeft(s) {
-					good = false
+					why = fmt.Sprintf("an iteration ending at %s includes the record=%v under {%s}", p.Pos(ex.Pos), ex.Seen["INCLUDE"] > 0, gea.CubeString(wit))
 				}
 			}
-			if good && cnt == 4 {
+			for _, e := range x.Effects {
+				if e.Class == "INCLUDE" && e.Detail["what"] != "" && e.Detail["what"] != "&n.Node" {
+					good = false
+					why = "the entry listed is " + e.Detail["what"] + ", not the element's own Node"
+				}
+			}
+			if good {
 				ok = true
-			} else {
-				why = "filter condition is not equivalent to !DeadOrLeft over the four states"
 			}
 			return true
 		})
 		c.Check("C07/members-filter/"+name, rule, fn.Decl.Pos(), ok, why)
 	}
+}
+
+// memberIterSpec explores one iteration of a loop over the node list: the
+// element (range value, or a local loaded from nodes[key]) is named "n" with
+// its state the free variable S; appending to a slice or counting up a
+// variable is the effect INCLUDE.
+type memberIterSpec struct {
+	gea.Base
+	elem, key types.Object
+}
+
+func (s *memberIterSpec) Init(x *gea.Exec, st *gea.State) *gea.State {
+	if s.elem != nil {
+		x.SetAlias(s.elem, "n")
+	}
+	return st.Bind("n.State", gea.Ref("S"))
+}
+
+func (s *memberIterSpec) Assign(x *gea.Exec, st *gea.State, lhs, rhs ast.Expr, val gea.Term) *gea.State {
+	p := x.P
+	if rhs == nil {
+		// counting: v++ on an integer variable
+		if id, ok := ast.Unparen(lhs).(*ast.Ident); ok && isIntegerT(p.TypeOf(id)) {
+			return x.Effect(st, "INCLUDE", lhs.Pos(), map[string]string{})
+		}
+		return st
+	}
+	if ix, ok := ast.Unparen(rhs).(*ast.IndexExpr); ok && p.FieldOwner(ix.X) == "Memberlist.nodes" {
+		if kid, ok := ast.Unparen(ix.Index).(*ast.Ident); ok && s.key != nil && p.Info.Uses[kid] == s.key {
+			// elem := m.nodes[key]
+			return st.Bind(x.LocKey(st, lhs, nil), gea.Sym("n"))
+		}
+	}
+	return st
+}
+
+func (s *memberIterSpec) Call(x *gea.Exec, st *gea.State, call *ast.CallExpr, env *gea.Env) ([]*gea.State, bool) {
+	if x.P.Builtin(call) == "append" && len(call.Args) == 2 {
+		return []*gea.State{x.Effect(st, "INCLUDE", call.Pos(), map[string]string{"what": x.ValueName(st, call.Args[1], env)})}, true
+	}
+	return nil, false
 }
 
 // checkReaper: the reaper removes from the tables only the tail the partition
@@ -244,7 +297,7 @@ func checkReaper(c *Ctx, prop string) {
 	// one iteration of the helper's loop, explored on its own (so that atoms
 	// of earlier iterations cannot be confused with the current element's)
 	var loopBody *ast.BlockStmt
-	ast.Inspect(part.Decl.Body, func(n ast.Node) bool {
+	inspectFn(part, func(n ast.Node) bool {
 		if fs, ok := n.(*ast.ForStmt); ok && loopBody == nil {
 			loopBody = fs.Body
 		}
@@ -289,7 +342,7 @@ func checkReaper(c *Ctx, prop string) {
 	c.Floor("partition swaps", nsw, 1)
 	// in the reaper: deletes are inside a loop starting at the helper's result
 	okLoop := false
-	ast.Inspect(reaper.Decl.Body, func(n ast.Node) bool {
+	inspectFn(reaper, func(n ast.Node) bool {
 		fs, isF := n.(*ast.ForStmt)
 		if !isF || fs.Init == nil {
 			return true
@@ -304,7 +357,7 @@ func checkReaper(c *Ctx, prop string) {
 		}
 		// id must be the variable holding the helper's result
 		src := false
-		ast.Inspect(reaper.Decl.Body, func(m ast.Node) bool {
+		inspectFn(reaper, func(m ast.Node) bool {
 			if a2, ok := m.(*ast.AssignStmt); ok && len(a2.Rhs) == 1 && len(a2.Lhs) == 1 {
 				if call, ok := ast.Unparen(a2.Rhs[0]).(*ast.CallExpr); ok && p.Callee(call) == part.Obj {
 					if l, ok := a2.Lhs[0].(*ast.Ident); ok && p.Info.Defs[l] == p.Info.Uses[id] {
